@@ -489,6 +489,9 @@ type CallAssert struct {
 	Ord    int
 	Expr   *Expr
 	Pos    string
+	Let    string // "let NAME after callee #k := expr": binds a ghost local instead of asserting
+	Stop   bool   // "stop after callee #k": paths end here (prefix verification)
+	Loop   int    // "assert at loop N: expr" / "stop at loop N"
 }
 
 type CallbackContract struct { // contract of a function-typed parameter
@@ -515,6 +518,7 @@ type Contract struct {
 	Modifies  []*Expr
 	HasMod    bool
 	PanicWhen *Expr
+	PanicMaybe string // panics are possible under conditions the contract does not characterise (reason)
 	Loops     map[int]*LoopContract
 	Mode      Mode
 	Trusted   bool // assumed, body not verified
@@ -550,6 +554,7 @@ type Axiom struct {
 }
 
 type SpecSet struct {
+	Imports   map[string]map[string]string // package path -> alias -> import path
 	Axioms    []Axiom
 	Contracts map[string]*Contract // key: pkgpath + "::" + Key
 	Macros    map[string]*MacroDef // key: pkgpath + "::" + name ; also global "::name"
@@ -566,7 +571,7 @@ func NewSpecSet() *SpecSet {
 var clauseKeywords = map[string]bool{
 	"pred": true, "pure": true, "func": true, "iface": true, "requires": true, "ensures": true, "modifies": true,
 	"invariant": true, "loop": true, "decreases": true, "panics": true, "mode": true, "ghost": true,
-	"trusted": true, "inline": true, "assumes": true, "axiom": true, "ghostdef": true, "arith": true, "modifies-each": true, "assert": true, "package": true, "fresh": true, "lemma": true, "callback": true, "noverify": true, "opaque": true,
+	"trusted": true, "inline": true, "assumes": true, "axiom": true, "ghostdef": true, "arith": true, "modifies-each": true, "assert": true, "let": true, "stop": true, "import": true, "package": true, "fresh": true, "lemma": true, "callback": true, "noverify": true, "opaque": true,
 }
 
 // LoadSpecFile parses one contract file. pkgPath is the default package for the file.
@@ -626,6 +631,18 @@ func (ss *SpecSet) LoadSpecFile(path, pkgPath string, trustedFile bool) error {
 		case "package":
 			pkgPath = rest
 			cur, curLoop, curCb = nil, nil, nil
+		case "import":
+			f := strings.Fields(rest)
+			if len(f) != 2 {
+				return fmt.Errorf("%s: import needs 'alias \"path\"'", pos)
+			}
+			if ss.Imports == nil {
+				ss.Imports = map[string]map[string]string{}
+			}
+			if ss.Imports[pkgPath] == nil {
+				ss.Imports[pkgPath] = map[string]string{}
+			}
+			ss.Imports[pkgPath][f[0]] = strings.Trim(f[1], "\"")
 		case "axiom":
 			cur, curLoop, curCb = nil, nil, nil
 			e, err := parse(rest)
@@ -766,7 +783,61 @@ func (ss *SpecSet) LoadSpecFile(path, pkgPath string, trustedFile bool) error {
 				}
 				cur.ModEach = append(cur.ModEach, me)
 				cur.HasMod = true
+			case "let":
+				// let NAME after <callee> #k := expr
+				k := strings.Index(rest, ":=")
+				a := strings.Index(rest, " after ")
+				h := strings.Index(rest, "#")
+				if k < 0 || a < 0 || h < 0 || !(a < h && h < k) {
+					return fmt.Errorf("%s: let needs 'NAME after <callee> #k := expr'", pos)
+				}
+				ord, err := strconv.Atoi(strings.TrimSpace(rest[h+1 : k]))
+				if err != nil {
+					return fmt.Errorf("%s: bad call ordinal in let", pos)
+				}
+				e, err := parse(rest[k+2:])
+				if err != nil {
+					return err
+				}
+				cur.Asserts = append(cur.Asserts, CallAssert{Callee: strings.TrimSpace(rest[a+7 : h]), Ord: ord, Expr: e, Pos: pos, Let: strings.TrimSpace(rest[:a])})
+			case "stop":
+				r := strings.TrimSpace(rest)
+				if strings.HasPrefix(r, "at loop") {
+					n, err := strconv.Atoi(strings.TrimSpace(strings.TrimPrefix(r, "at loop")))
+					if err != nil {
+						return fmt.Errorf("%s: bad loop ordinal in stop", pos)
+					}
+					cur.Asserts = append(cur.Asserts, CallAssert{Loop: n, Stop: true, Pos: pos})
+					break
+				}
+				r = strings.TrimSpace(strings.TrimPrefix(r, "after"))
+				h := strings.Index(r, "#")
+				if h < 0 {
+					return fmt.Errorf("%s: stop needs 'after <callee> #k' or 'at loop N'", pos)
+				}
+				ord, err := strconv.Atoi(strings.TrimSpace(r[h+1:]))
+				if err != nil {
+					return fmt.Errorf("%s: bad call ordinal in stop", pos)
+				}
+				cur.Asserts = append(cur.Asserts, CallAssert{Callee: strings.TrimSpace(r[:h]), Ord: ord, Stop: true, Pos: pos})
 			case "assert":
+				if strings.HasPrefix(strings.TrimSpace(rest), "at loop") {
+					r := strings.TrimSpace(strings.TrimPrefix(strings.TrimSpace(rest), "at loop"))
+					k := strings.Index(r, ":")
+					if k < 0 {
+						return fmt.Errorf("%s: assert at loop needs ':'", pos)
+					}
+					n, err := strconv.Atoi(strings.TrimSpace(r[:k]))
+					if err != nil {
+						return fmt.Errorf("%s: bad loop ordinal in assert", pos)
+					}
+					e, err := parse(r[k+1:])
+					if err != nil {
+						return err
+					}
+					cur.Asserts = append(cur.Asserts, CallAssert{Loop: n, Expr: e, Pos: pos})
+					break
+				}
 				// assert after <callee> #k: expr
 				r := strings.TrimSpace(strings.TrimPrefix(rest, "after"))
 				k := strings.Index(r, ":")
@@ -859,6 +930,13 @@ func (ss *SpecSet) LoadSpecFile(path, pkgPath string, trustedFile bool) error {
 				cur.Callbacks[name] = curCb
 				curLoop = nil
 			case "panics":
+				if strings.HasPrefix(strings.TrimSpace(rest), "maybe") {
+					cur.PanicMaybe = strings.TrimSpace(strings.TrimPrefix(strings.TrimSpace(rest), "maybe"))
+					if cur.PanicMaybe == "" {
+						cur.PanicMaybe = "unspecified"
+					}
+					break
+				}
 				rest = strings.TrimSpace(strings.TrimPrefix(rest, "when"))
 				e, err := parse(rest)
 				if err != nil {
